@@ -303,12 +303,14 @@ impl HandlerRunner {
     }
 
     /// Tries every known session key on a ciphertext.
-    fn ct_term(&mut self, nonce: [u8; 12], nonce_name: u64, ct: &[u8], aad: &[u8], owner: u64) -> (String, Option<([u8; 16], Vec<u8>)>) {
+    fn ct_term(&mut self, nonce: [u8; 12], nonce_name: u64, ct: &[u8], aad: &[u8], owner: u64, handshake: bool) -> (String, Option<([u8; 16], Vec<u8>)>) {
         for i in 0..self.keys.len() {
             let (k, term) = self.keys[i].clone();
             if let Some(pt) = hf::aead_decrypt(&k, nonce, ct, aad) {
                 let m = self.msg_term(&pt, owner);
-                return (format!("E[{}|{}|{}|ok]", term, nonce_name, m), Some((k, pt)));
+                // the 4-byte counter prefix of a message nonce is part of the term (C19)
+                let ctr = if handshake { 0 } else { u32::from_be_bytes([nonce[0], nonce[1], nonce[2], nonce[3]]) };
+                return (format!("E[{}|{}|{}|{}|ok]", term, nonce_name, ctr, m), Some((k, pt)));
             }
         }
         ("G".into(), None)
@@ -343,7 +345,7 @@ impl HandlerRunner {
             }
             PacketKind::Message { src_id } => {
                 let src = self.id_idx(src_id);
-                let (ct, _) = self.ct_term(p.nonce, nn, &p.message, &aad, owner);
+                let (ct, _) = self.ct_term(p.nonce, nn, &p.message, &aad, owner, false);
                 Some(format!("M~{}~{}~{}", src, nn, ct))
             }
             PacketKind::Handshake { src_id, id_nonce_sig, ephem_pubkey, enr_record } => {
@@ -376,7 +378,7 @@ impl HandlerRunner {
                             self.keys.push((k.initiator_key, t_ini));
                             self.keys.push((k.recipient_key, t_rcp));
                         }
-                        ct = self.ct_term(p.nonce, nn, &p.message, &aad, owner).0;
+                        ct = self.ct_term(p.nonce, nn, &p.message, &aad, owner, true).0;
                     }
                 }
                 let rec = match enr_record {
@@ -867,7 +869,10 @@ impl HandlerRunner {
                 } else { r.parse().unwrap_or(0) };
                 let Some((na, req)) = self.nodes[xi].requests.get(r).cloned() else { return self.finish(None, None, 1, out, stats) };
                 let own = self.nodes[xi].enr.clone();
-                let body = match *kind {
+                let kind: &str = if *kind == "auto" {
+                    match code_of(&req.body) { 2 => "nodes1", 3 => "nodes0", 4 => "talk", _ => "pong" }
+                } else { kind };
+                let body = match kind {
                     "pong" => ResponseBody::Pong { enr_seq: 1, ip: "10.0.0.1".parse().unwrap(), port: std::num::NonZeroU16::new(9000).unwrap() },
                     "nodes1" => ResponseBody::Nodes { total: 1, nodes: vec![own] },
                     "nodes0" => ResponseBody::Nodes { total: 1, nodes: vec![] },
@@ -1099,6 +1104,28 @@ pub fn gen_case(rng: &mut Rng, tier: &str, profile: &str, stats: &mut Stats) -> 
     let mut emitted = 0u64; // lower bound on the number of wire entries so far
     let adversarial = profile == "C01" || profile == "C02" || profile == "C03" || rng.chance(1, 2);
     let other = |rng: &mut Rng, x: u64| -> u64 { let mut y = rng.range(1, n); if y == x { y = x % n + 1; } y };
+    if rng.chance(1, 3) {
+        // directed prefix: dial a node without knowing its record, let everything be answered
+        // honestly, then issue another request while the first exchange is a while ago
+        stats.bump("gen.cases.directed-raw-contact");
+        let x = rng.range(1, n);
+        let y = other(rng, x);
+        ops.push(format!("hreq {} {} raw {} {}", x, y, rid, rng.range(1, 4)));
+        rid += 1;
+        ops.push("hdel next".into());
+        ops.push(format!("hwru {} next {}", y, if rng.chance(1, 2) { "none" } else { "known" }));
+        for _ in 0..3 { ops.push("hdel next".into()); }
+        for _ in 0..2 { ops.push(format!("hresp {} next auto", y)); ops.push("hdel next".into()); }
+        ops.push("hdel next".into());
+        ops.push(format!("hadv {}", rng.range(200, 390)));
+        ops.push(format!("hreq {} {} enr {} {}", x, y, rid, rng.range(1, 4)));
+        rid += 1;
+        ops.push(format!("hadv {}", rng.range(30, 250)));
+        ops.push("hdel next".into());
+        ops.push(format!("hresp {} next auto", y));
+        ops.push("hdel next".into());
+        emitted += 10;
+    }
     for _ in 0..steps {
         match rng.below(100) {
             0..=13 => {
@@ -1126,7 +1153,7 @@ pub fn gen_case(rng: &mut Rng, tier: &str, profile: &str, stats: &mut Stats) -> 
             }
             73..=84 => {
                 let x = rng.range(1, n);
-                let kind = match rng.below(10) { 0 => "nodes1", 1 => "nodes3", 2 => "nodes0", 3 => "talk", 4 => "nodesbad", _ => "pong" };
+                let kind = match rng.below(14) { 0 => "nodes1", 1 => "nodes3", 2 => "nodes0", 3 => "talk", 4 => "nodesbad", 5 => "pong", _ => "auto" };
                 ops.push(format!("hresp {} next {}", x, kind));
                 emitted += 1;
             }
